@@ -27,6 +27,8 @@ type (
 		mu              sync.Mutex
 		f               http.Flusher
 		keepAliveTicker *time.Ticker
+		closed          bool          // guarded by mu: the handler is returning, nothing more may be written
+		done            chan struct{} // closed together with setting closed, ends keepAlive
 	}
 )
 
@@ -52,8 +54,9 @@ func (t SSE) Do(w http.ResponseWriter, r *http.Request, exec graphql.GraphExecut
 	}
 
 	c := &sseConnection{
-		ctx: ctx,
-		f:   flusher,
+		ctx:  ctx,
+		f:    flusher,
+		done: make(chan struct{}),
 	}
 
 	defer c.flush()
@@ -107,6 +110,7 @@ func (t SSE) Do(w http.ResponseWriter, r *http.Request, exec graphql.GraphExecut
 		c.mu.Unlock()
 
 		go c.keepAlive(w)
+		defer c.stopKeepAlive()
 	}
 
 	if opErr != nil {
@@ -125,7 +129,10 @@ func (t SSE) Do(w http.ResponseWriter, r *http.Request, exec graphql.GraphExecut
 		}
 	}
 
-	c.write(func() { fmt.Fprint(w, "event: complete\n\n") })
+	c.write(func() {
+		fmt.Fprint(w, "event: complete\n\n")
+		c.close() // under the same lock: no ping can follow the complete event
+	})
 }
 
 func (c *sseConnection) resetTicker(interval time.Duration) {
@@ -136,9 +143,31 @@ func (c *sseConnection) resetTicker(interval time.Duration) {
 	}
 }
 
+// stopKeepAlive ends the keep-alive goroutine. Once it has returned no ping is
+// written any more: the ResponseWriter must not be used after the handler returns.
+func (c *sseConnection) stopKeepAlive() {
+	c.mu.Lock()
+	defer c.mu.Unlock()
+	c.close()
+}
+
+// close must be called with c.mu held.
+func (c *sseConnection) close() {
+	if c.closed {
+		return
+	}
+	c.closed = true
+	if c.keepAliveTicker != nil {
+		c.keepAliveTicker.Stop()
+	}
+	close(c.done)
+}
+
 func (c *sseConnection) keepAlive(w io.Writer) {
 	for {
 		select {
+		case <-c.done:
+			return
 		case <-c.ctx.Done():
 			c.keepAliveTicker.Stop()
 			return
@@ -154,6 +183,9 @@ func (c *sseConnection) keepAlive(w io.Writer) {
 func (c *sseConnection) write(f func()) {
 	c.mu.Lock()
 	defer c.mu.Unlock()
+	if c.closed {
+		return
+	}
 	f()
 	c.f.Flush()
 }
